@@ -231,7 +231,7 @@ func (e *Eval) builtin(fr *frame, x *ssa.Call, name string, args []AV, st State)
 			if a0.LenKnown && a0.Len.Const() && a1.LenKnown && a1.Len.Const() && a0.HasVal && a1.HasVal && !a0.Min && !a1.Min {
 				var out Layout
 				out = append(out, a1.Val.Norm()...)
-				if w, _ := a1.Val.Width(); w < 8*a1.Len.A {
+				if w, _ := a1.Val.DeclWidth(); w < 8*a1.Len.A {
 					out = append(out, Field{W: K(8*a1.Len.A - w)})
 				}
 				out = append(out, a0.Val...)
